@@ -85,7 +85,7 @@ def intern_defs() -> str:
 
 
 def cs_(s: str) -> str:
-    return cb(s.encode("utf-8"))
+    return f"(CB {coq_str(s)})"
 
 
 # ======================================================================================
